@@ -334,4 +334,99 @@ example : parserSetOn [100, 101, 118] ([100, 101, 118, 47] ++ sChannels ++ [45, 
 open SuplaVerif in
 example : parserSetOn [100, 101, 118] ([100, 101, 118, 47] ++ sChannels ++ [47] ++ sSetOn) [49] = none := by decide
 
+open SuplaVerif in
+/-- a percentage payload is accepted only with a value of 0..100 -/
+theorem percentOf_le (m : Bytes) (v : Nat) (h : percentOf m = some v) : v ≤ 100 := by
+  unfold percentOf at h
+  cases hs : str2intParts m with
+  | none => rw [hs] at h; cases h
+  | some p =>
+    obtain ⟨mi, w⟩ := p
+    rw [hs] at h
+    simp only at h
+    split at h
+    · rename_i hc
+      simp only [Option.some.injEq] at h
+      subst h
+      rcases hc with hc | hc <;> omega
+    · cases h
+
+open SuplaVerif in
+/-- **C17.T3 (a shutter command is addressed exactly)** the shutter command parser acts only on a topic that is the device
+    prefix, '/', "channels/", the channel number, '/', and one of the three command names; percentages are 0..100 -/
+theorem c17_rs_grammar (dev topic msg : Bytes) (ch a pc tl : Nat) (h : parserRs dev topic msg = some (ch, a, pc, tl)) :
+    ∃ ds cmd, topic = dev ++ 47 :: (sChannels ++ ds ++ 47 :: cmd) ∧ ds ≠ [] ∧ (∀ c ∈ ds, isDigB c = true) ∧ ds.length ≤ 9 ∧
+      decNat ds 0 = ch ∧ ch ≤ 255 ∧ pc ≤ 100 ∧ tl ≤ 100 ∧
+      ((cmd = sClosing ∧ a = 5 ∧ percentOf msg = some pc) ∨ (cmd = sTilt ∧ a = 9 ∧ percentOf msg = some tl) ∨
+       (cmd = sExec ∧ rsAction msg = some a)) := by
+  unfold parserRs at h
+  by_cases h0 : topic = [] ∨ msg = [] ∨ dev = [] ∨ dev.length + 1 ≥ topic.length
+  · rw [if_pos h0] at h; cases h
+  · rw [if_neg h0] at h
+    by_cases hp : (dev.isPrefixOf topic && (topic.drop dev.length).head? == some 47) = true
+    · rw [if_pos hp] at h
+      have hp' := Bool.and_eq_true_iff.mp hp
+      have ht : dev ++ topic.drop dev.length = topic := List.prefix_iff_eq_append.mp (List.isPrefixOf_iff_prefix.mp hp'.1)
+      have hh : (topic.drop dev.length).head? = some 47 := by simpa using hp'.2
+      have hd : topic.drop dev.length = 47 :: topic.drop (dev.length + 1) := by
+        cases hx : topic.drop dev.length with
+        | nil => rw [hx] at hh; cases hh
+        | cons x xs =>
+          rw [hx] at hh
+          simp only [List.head?_cons, Option.some.injEq] at hh
+          have : topic.drop (dev.length + 1) = xs := by
+            rw [← List.drop_drop, hx]; rfl
+          rw [hh, this]
+      cases hpi : parseIntWithPrefix sChannels (topic.drop (dev.length + 1)) with
+      | none => rw [hpi] at h; cases h
+      | some p =>
+        obtain ⟨c, rest⟩ := p
+        rw [hpi] at h
+        simp only at h
+        obtain ⟨ds, e1, e2, e3, e4, e5, e6⟩ := (c17_channel_grammar sChannels _ rest c).mp hpi
+        have htop : topic = dev ++ 47 :: (sChannels ++ ds ++ 47 :: rest) := by rw [← ht, hd, e1]
+        by_cases hr : rest = sClosing
+        · rw [if_pos hr] at h
+          cases hv : percentOf msg with
+          | none => rw [hv] at h; cases h
+          | some w =>
+            rw [hv] at h
+            simp only [Option.map_some, Option.some.injEq, Prod.mk.injEq] at h
+            obtain ⟨k1, k2, k3, k4⟩ := h
+            have := percentOf_le msg w hv
+            exact ⟨ds, rest, htop, e2, e3, e4, by rw [e5, k1], by omega, by omega, by omega,
+              Or.inl ⟨hr, k2.symm, by rw [k3]⟩⟩
+        · rw [if_neg hr] at h
+          by_cases hr2 : rest = sTilt
+          · rw [if_pos hr2] at h
+            cases hv : percentOf msg with
+            | none => rw [hv] at h; cases h
+            | some w =>
+              rw [hv] at h
+              simp only [Option.map_some, Option.some.injEq, Prod.mk.injEq] at h
+              obtain ⟨k1, k2, k3, k4⟩ := h
+              have := percentOf_le msg w hv
+              exact ⟨ds, rest, htop, e2, e3, e4, by rw [e5, k1], by omega, by omega, by omega,
+                Or.inr (Or.inl ⟨hr2, k2.symm, by rw [k4]⟩)⟩
+          · rw [if_neg hr2] at h
+            by_cases hr3 : rest = sExec
+            · rw [if_pos hr3] at h
+              cases hv : rsAction msg with
+              | none => rw [hv] at h; cases h
+              | some w =>
+                rw [hv] at h
+                simp only [Option.map_some, Option.some.injEq, Prod.mk.injEq] at h
+                obtain ⟨k1, k2, k3, k4⟩ := h
+                exact ⟨ds, rest, htop, e2, e3, e4, by rw [e5, k1], by omega, by omega, by omega,
+                  Or.inr (Or.inr ⟨hr3, by rw [k2]⟩)⟩
+            · rw [if_neg hr3] at h; cases h
+    · rw [if_neg hp] at h; cases h
+
+open SuplaVerif in
+example : parserRs [100] ([100, 47] ++ sChannels ++ [55, 47] ++ sClosing) [52, 50, 46, 53] = some (7, 5, 42, 0) := by decide
+open SuplaVerif in
+example : parserRs [100] ([100, 47] ++ sChannels ++ [55, 47] ++ sTilt) [49, 48, 49] = none := by decide
+open SuplaVerif in
+example : parserRs [100] ([100, 47] ++ sChannels ++ [55, 47] ++ sExec) [83, 116, 79, 112] = some (7, 7, 0, 0) := by decide
+
 end SuplaVerif.C17
